@@ -118,8 +118,10 @@ func c18New(region int, extra int) {
 		given = vChoice("given", 2) == 1
 	case c18RegionFloorAbove:
 		vAssume(ct >= 1008 && est.relay > end && end >= 1)
+		vAssume(int64(est.relay) < c18MaxRate && int64(est.rate) < c18MaxRate)
 	case c18RegionZeroCeiling:
 		vAssume(end == 0 && ct > 1)
+		vAssume(int64(est.relay) < c18MaxRate && int64(est.rate) < c18MaxRate)
 	}
 	startOpt := fn.None[chainfee.SatPerKWeight]()
 	var givenStart chainfee.SatPerKWeight
